@@ -31,6 +31,16 @@ def big(r, n):
     return (blk * (n // 61 + 1))[:n]
 
 
+def repeats(r, xs):
+    """list-valued arguments with equal elements: adjacent, separated, all equal"""
+    if not xs or not r.chance(1, 3): return xs
+    k = r.below(4)
+    if k == 0: return [xs[0]] * (2 + r.below(4))
+    if k == 1: i = r.below(len(xs)); return xs[:i + 1] + [xs[i]] + xs[i + 1:]
+    if k == 2: return xs + [xs[0]]
+    return xs + xs
+
+
 def parts_of(r, total, n):
     cuts = sorted(r.below(total + 1) for _ in range(n - 1)) if n > 1 else []
     data = r.bytes(total)
@@ -88,6 +98,7 @@ def campaign(c):
             key = ('tls::extension', total)
         elif k == 7:    # cipher list
             ids = [r.below(65536) for _ in range(r.choice([0, 1, 2, 17, 300]))]
+            ids = repeats(r, ids)
             res, req = call_both(c, [['tls::ciphers'] + ['-=u16:%d' % x for x in ids]])
             b = val_bytes(res[0]); rep = dict(req=req[:400000])
             if b is not None:
@@ -97,6 +108,7 @@ def campaign(c):
         elif k in (8, 9):   # sni / certificates
             fn, kind, fld = ('tls::sni', 'sni', 'names') if k == 8 else ('tls::certificates', 'certs', 'certs')
             items = [r.choice([r.bytes(r.choice([0, 1, 10, 255, 256, 1000])), b'www.example.com.', b'.', b'a.', b'..', b'x' * r.below(5) + b'.']) for _ in range(r.below(4))]
+            items = repeats(r, items)
             if k == 9 and r.chance(1, 4):
                 # 24-bit lengths beyond 16 bits: one big certificate, or a chain whose entries are each below 64 KiB
                 items = r.choice([[big(r, 65530)], [big(r, 65535)], [big(r, 65536)], [big(r, 40000), big(r, 30000), b'tail!'], [b'x', big(r, 70000)], [big(r, 65527), b'']])
@@ -108,8 +120,8 @@ def campaign(c):
             key = (fn, tuple(len(x) for x in items))
         elif k in (10, 11):  # hellos with every present/absent combination
             client = k == 10
-            sid = r.bytes(r.choice([0, 1, 32])); comp = r.bytes(r.choice([0, 1, 2])); ids = [r.below(65536) for _ in range(r.below(4))]
-            exts = [(r.below(65536), r.bytes(r.choice([0, 1, 5, 300]))) for _ in range(r.below(3))]
+            sid = r.bytes(r.choice([0, 1, 32])); comp = r.bytes(r.choice([0, 1, 2])); ids = repeats(r, [r.below(65536) for _ in range(r.below(4))])
+            exts = repeats(r, [(r.below(65536), r.bytes(r.choice([0, 1, 5, 300]))) for _ in range(r.below(3))])
             if r.chance(1, 8):   # an extension block of (almost) 64 KiB: the hello needs all 24 bits of its handshake length
                 exts = r.choice([[(r.below(65536), big(r, 65531))], [(1, big(r, 30000)), (2, big(r, 35000))], [(7, big(r, 65000)), (8, b'ab')]])
             empties = r.choice([0, 0, 1, 2])          # extension arguments that are empty byte strings
